@@ -25,7 +25,7 @@ ASSUMPTIONS = [
     'configuration strings: a valid word with one or two characters replaced by symbolic lower-case letters; "accepted => it is one of the valid words"',
 ]
 ROUTES = ('ctor_config', 'ctor_like', 'ctor_like_val', 'template', 'deepcopy', 'like', 'fxp_like', 'from_fxp', 'resize_copy', 'add', 'mul_const', 'neg', 'lshift',
-          'rshift_keep', 'invert', 'and', 'np_sum', 'np_cumsum', 'astype_roundtrip')
+          'rshift_keep', 'invert', 'and', 'xor', 'or', 'np_sum', 'np_cumsum', 'astype_roundtrip')
 MUTATIONS = ('write', 'write_flags', 'setitem', 'config', 'reset', 'resize')
 FIELDS = {'overflow': ['saturate', 'wrap'], 'rounding': ['around', 'floor', 'ceil', 'fix', 'trunc'], 'shifting': ['expand', 'trunc', 'keep'],
           'op_sizing': ['optimal', 'same', 'fit', 'largest', 'smallest'], 'op_method': ['raw', 'repr'], 'op_input_size': ['same', 'best'],
@@ -150,6 +150,10 @@ def derive(F, route, A, other):
         return A >> 1
     if route == 'invert':
         return ~A
+    if route == 'xor':
+        return A ^ 5
+    if route == 'or':
+        return A | 1
     if route == 'and':
         return A & 3                          # (array & array is not supported by fxpmath: integer mask)
     if route == 'np_sum':
